@@ -19,6 +19,11 @@ CLAIMED = {
         text="Unbounded theorems: the viewBox->font placement is user o flip o uniform-scale-and-centre (over any field); the advance rule with half-even rounding; the reversed-pre-order/depth-stack loop of _painted_layers returns exactly the source's items as trees in source order for every picosvg-normal source (mutual induction), no assertion reachable; linear gradients are carried by any invertible affine, the default p2 is the SVG projection, uniform transforms map gradient circles to circles. The models are tied to color_glyph.py by evaluating them in Coq on random Fractions / generated picosvg documents. The composition (incl. reuse rewrite, palette, quantisation) is checked end to end: generated source sets x configurations x {glyf,cff,cff2}_colr_1 are compiled by the real code, reloaded, and every glyph's COLR paint graph is compared layer by layer (boundary distance, group alpha structure, colours, gradient geometry) with the placed source.",
         ref="DESIGN.md 8 C01",
     ),
+    "C03": dict(
+        technique="machine-checked proof in Coq (breadth-first walk = COLR placements under the one-transform invariant, by nested induction over paint trees; refutation for nested transforms) + correspondence by vm_compute + end-to-end comparison of COLRv0/glyf builds",
+        text="Unbounded theorems over any field: Paint.breadth_first and a depth-first enumeration visit the same contexts (queue invariant); under the invariant the compiler establishes (at most one transform paint above a PaintGlyph, glyph-free fills) the (glyph, transform, fill) triples consumed by _colr0_layers/_glyf_ufo/_bounds are exactly the placements of the COLR rendering semantics; with nested transforms the walk composes in the wrong order (machine-checked witness; latent, unreachable from nanoemoji's trees). The walk's model is tied to the code by evaluating it in Coq on generated trees. End to end: generated sources x configurations x {glyf_colr_0, cff_colr_0, cff2_colr_0, glyf} are built by the real code: COLRv0 layers compared in z-order with CPAL colour+alpha (solid sources), outlines matched one-to-one with placed source shapes (any source), base glyph bounds cover layers, glyf contours match sources one-to-one.",
+        ref="DESIGN.md 8 C03",
+    ),
     "C05": dict(
         technique="machine-checked proof in Coq (lia/lra theorems about the clip-box computation) + correspondence by vm_compute + independent COLR placement semantics evaluated on the implementation's boxes",
         text="Unbounded theorems: every control point fed to the bounds computation lies in the emitted box widened by the half unit otRound may move an edge; quantised edges are multiples of the step, at most one step outward; no box iff nothing painted; the assertion is unreachable. Model tied to write_font._bounds/_quantize_bounding_rect by evaluating it in Coq on generated paint trees and glyph environments; the implementation's boxes are also judged against placements computed by an independent COLR semantics.",
